@@ -70,8 +70,8 @@ BitmapRules(S) ==
   SFail(~Covers(S.bbm, 0, S.datastart), "C04,C15:metadata-blocks-not-marked-used")
   \o SFail(~Covers(S.bbm, S.size, S.nbbm * 32768), "C04,C15:bits-beyond-the-disk-not-marked-used")
   \o SFail(Clip(S.bbm, S.datastart, S.size) # Owned(S) \cap (S.datastart..(S.size - 1)),
-           "C04,C05:block-bitmap-differs-from-blocks-owned")
-  \o SFail(IvSet(S.ibm) # {0, 1} \cup Live(S), "C04,C05:inode-bitmap-differs-from-inodes-in-use")
+           "C04,C05,C15:block-bitmap-differs-from-blocks-owned")
+  \o SFail(IvSet(S.ibm) # {0, 1} \cup Live(S), "C04,C05,C15:inode-bitmap-differs-from-inodes-in-use")
 
 (* directories form a tree rooted at inode 1 in which every live inode has exactly one name *)
 Ents(d) == {j \in 1..Len(d.slots) : d.slots[j].name \notin {".", ".."}}
